@@ -2403,3 +2403,133 @@ func verifAxiomPrefixLen(s, prefix string) {}
 //@   requires w != nil
 //@   callrequires os.Create len(a) >= 1 && ite(sandboxDir == "", arg0 == a[0], arg0 == specResolved(sandboxDir, a[0]) && specInsideSandbox(sandboxDir, arg0))
 //@   ensures[once] created <= 1
+
+// =====================================================================
+// C22 — firewall configuration parses exactly (ports, protocols, selectors)
+// =====================================================================
+//
+// Port text: "any" is the any-port value, "fragment" the fragment value; text
+// without '-' is a port exactly when it is a base-10 numeral in [0, 65535]
+// (strconv.ParseUint with 16 bits, abstracted to specIsDec16 / specDec16) and
+// then both bounds are that number; text with '-' is a range of the two
+// space-trimmed halves, both of which must be non-empty such numerals; a range
+// starting at 0 means any. Everything else is refused (and the refusal carries
+// the not-a-port marker, never a usable port).
+// Rule list: every rule either makes the load fail or is handed to AddRule
+// exactly once, in order, for the table's direction, with a known protocol
+// (ICMP always with the any-port range), bounds that are the fragment marker
+// or lie in [0, 65535], and at least one selector.
+
+//@ func specIsDec16
+//@   opaque
+func specIsDec16(s string) bool { return false }
+
+//@ func specDec16
+//@   opaque
+func specDec16(s string) uint64 { return 0 }
+
+//@ func specHasDash
+//@   opaque
+func specHasDash(s string) bool { return false }
+
+//@ func specPart0
+//@   opaque
+func specPart0(s string) string { return s }
+
+//@ func specPart1
+//@   opaque
+func specPart1(s string) string { return s }
+
+//@ func specTrimSp
+//@   opaque
+func specTrimSp(s string) string { return s }
+
+//@ func strconv.ParseUint
+//@   trusted base-10, 16-bit parse: succeeds exactly on the numerals of [0, 65535] (abstracted), other uses unconstrained
+//@   ensures implies(base == 10 && bitSize == 16, (result1 == nil) == specIsDec16(s) && implies(result1 == nil, result0 == specDec16(s) && result0 <= 65535))
+//@   assigns nothing
+//@ func strings.Contains
+//@   trusted a pure function of string and substring
+//@   ensures implies(substr == "-", result == specHasDash(s))
+//@   assigns nothing
+//@ func strings.SplitN
+//@   trusted splits around the first separator when n is 2: a fresh slice of one or two parts, pure functions of the string
+//@   ensures len(result) >= 1 && len(result) <= 2 && fresh(&result[0]) && implies(sep == "-" && n == 2 && len(result) == 2, result[0] == specPart0(s) && result[1] == specPart1(s)) && implies(sep == "-" && n == 2 && specHasDash(s), len(result) == 2)
+//@   assigns nothing
+//@ func strings.Trim
+//@   trusted a pure function of string and cutset
+//@   ensures implies(cutset == " ", result == specTrimSp(s))
+//@   assigns nothing
+
+// specIsPortRange: lo..hi is what the port text s means.
+//@ func specIsPortRange
+//@   pure
+func specIsPortRange(s string, lo, hi int32) bool {
+	if s == "any" {
+		return lo == firewall.PortAny && hi == firewall.PortAny
+	}
+	if s == "fragment" {
+		return lo == firewall.PortFragment && hi == firewall.PortFragment
+	}
+	if !specHasDash(s) {
+		return specIsDec16(s) && lo == int32(specDec16(s)) && hi == lo
+	}
+	a, b := specTrimSp(specPart0(s)), specTrimSp(specPart1(s))
+	if a == "" || b == "" || !specIsDec16(a) || !specIsDec16(b) {
+		return false
+	}
+	if lo != int32(specDec16(a)) {
+		return false
+	}
+	if lo == 0 {
+		return hi == 0
+	}
+	return hi == int32(specDec16(b))
+}
+
+//@ func parsePortValue
+//@   props C22
+//@   ensures[accept] (result1 == nil) == specIsDec16(s)
+//@   ensures[value]  implies(result1 == nil, result0 == int32(specDec16(s)) && 0 <= result0 && result0 <= 65535)
+//@   assigns nothing
+
+//@ func parsePort
+//@   props C22
+//@   ensures[any]      implies(s == "any", result2 == nil && result0 == firewall.PortAny && result1 == firewall.PortAny)
+//@   ensures[fragment] implies(s == "fragment", result2 == nil && result0 == firewall.PortFragment && result1 == firewall.PortFragment)
+//@   ensures[single]   implies(s != "any" && s != "fragment" && !specHasDash(s), (result2 == nil) == specIsDec16(s) && implies(result2 == nil, result0 == int32(specDec16(s)) && result1 == result0))
+//@   ensures[range]    implies(s != "any" && s != "fragment" && specHasDash(s), (result2 == nil) == (specTrimSp(specPart0(s)) != "" && specTrimSp(specPart1(s)) != "" && specIsDec16(specTrimSp(specPart0(s))) && specIsDec16(specTrimSp(specPart1(s)))))
+//@   ensures[bounds]   implies(s != "any" && s != "fragment" && specHasDash(s) && result2 == nil, result0 == int32(specDec16(specTrimSp(specPart0(s)))) && result1 == ite(result0 == 0, int32(0), int32(specDec16(specTrimSp(specPart1(s))))))
+//@   ensures[inrange]  implies(result2 == nil, (result0 == firewall.PortFragment && result1 == firewall.PortFragment) || (0 <= result0 && result0 <= 65535 && 0 <= result1 && result1 <= 65535))
+//@   ensures[refused]  implies(result2 != nil, result0 == -2 && result1 == -2)
+//@   ensures[spec]     implies(result2 == nil, specIsPortRange(s, result0, result1))
+//@   assigns nothing
+//@   loop 1 invariant len(sPorts) >= 1 && len(sPorts) <= 2 && fresh(&sPorts[0]) && implies(len(sPorts) == 2, sPorts[0] == ite(rangeindex >= 1, specTrimSp(specPart0(s)), specPart0(s)) && sPorts[1] == ite(rangeindex >= 2, specTrimSp(specPart1(s)), specPart1(s)))
+//@   loop 1 assigns elems(sPorts)
+
+//@ func convertRule
+//@   trusted reads one rule map of the configuration into its text fields (reflection over YAML values)
+//@   assigns nothing
+//@ func (*rule).sanity
+//@   trusted advisory check: its result is only logged
+//@   assigns nothing
+//@ func (FirewallInterface).AddRule
+//@   trusted installs one rule in the firewall being built
+//@   effect added
+//@   assigns nothing
+//@ func net/netip.ParsePrefix
+//@   trusted standard library prefix parser (only its error is used here)
+//@   assigns nothing
+
+//@ func AddFirewallRulesFromConfig
+//@   props C22
+//@   ghost added int = 0
+//@   requires l != nil && c != nil && fw != nil
+//@   callrequires[direction] AddRule arg1 == inbound
+//@   callrequires[proto] AddRule (arg2 == firewall.ProtoAny || arg2 == firewall.ProtoTCP || arg2 == firewall.ProtoUDP || arg2 == firewall.ProtoICMP) && implies(arg2 == firewall.ProtoICMP, arg3 == firewall.PortAny && arg4 == firewall.PortAny)
+//@   callrequires[ports] AddRule (arg3 == firewall.PortFragment && arg4 == firewall.PortFragment) || (0 <= arg3 && arg3 <= 65535 && 0 <= arg4 && arg4 <= 65535)
+//@   callrequires[protoname] AddRule (r.Proto == "any" && arg2 == firewall.ProtoAny) || (r.Proto == "tcp" && arg2 == firewall.ProtoTCP) || (r.Proto == "udp" && arg2 == firewall.ProtoUDP) || (r.Proto == "icmp" && arg2 == firewall.ProtoICMP)
+//@   callrequires[portvalue] AddRule implies(r.Proto != "icmp", specIsPortRange(ite(r.Code != "", r.Code, r.Port), arg3, arg4)) && !(r.Code != "" && r.Port != "")
+//@   callrequires[fields] AddRule same(arg5, r.Groups) && arg6 == r.Host && arg7 == r.Cidr && arg8 == r.LocalCidr && arg9 == r.CAName && arg10 == r.CASha
+//@   callrequires[selector] AddRule arg6 != "" || len(arg5) > 0 || arg7 != "" || arg8 != "" || arg9 != "" || arg10 != ""
+//@   loop 1 invariant added == rangeindex
